@@ -83,6 +83,13 @@ def traced_names(cls, spec):
     return list(cls.TRACE_VARIABLES) if cls.TRACE_VARIABLES is not None else ['A', 'B', 'X']
 
 
+def trace_image(m):
+    """Labels and values of every period's trace (plain Python data)."""
+    if 'trace' not in m.__dict__['index']:
+        return []
+    return [(list(tr.index), repr(np.asarray(tr.values, dtype=float).tolist())) for tr in m['trace']]   # repr: NaN compares equal to itself
+
+
 def full_check(ctx, cls, n, scripts, opts, spec, entry, arg, tol, faults, case, repeat=1):
     """Traced vs untraced twin + exact expected trace (labels and values)."""
     A = make(cls, n, scripts, tol, *faults)
@@ -93,11 +100,15 @@ def full_check(ctx, cls, n, scripts, opts, spec, entry, arg, tol, faults, case, 
     expected = {t: ([], []) for t in range(n)}
     strict = opts['errors'] == 'raise' and opts['catch_first_error']
     ended_in_last_rep = set()
+    left_behind = []
     for rep in range(repeat):
         ended_in_last_rep = set()
         if rep > 0:
             # between repeated solves: replace whole series (a list assignment rebinds the underlying array), or continue on copies
             how = case.get('interlude', 'none')
+            if how.startswith('copy'):
+                # the object left behind keeps the trace it had: what a later traced solve of its copy records is not its own
+                left_behind.append((A, trace_image(A)))
             if how in ('list-assign', 'copy-then-list-assign'):
                 if how.startswith('copy'):
                     A, B = A.copy(), B.copy()
@@ -180,6 +191,12 @@ def full_check(ctx, cls, n, scripts, opts, spec, entry, arg, tol, faults, case, 
                     break
             if str(B.status[t]) not in ('.', 'S', 'F') or (str(B.status[t]) == 'F' and opts['failures'] == 'raise'):
                 break   # the call raised here; later periods are not visited
+    for obj, image in left_behind:
+        ctx.count('left_behind_traces_compared')
+        if trace_image(obj) != image:
+            bad = [t for t, (x, y) in enumerate(zip(trace_image(obj), image)) if x != y]
+            ctx.violation('trace-shared-with-copy', f'after copy() and a traced solve of the copy, the original\'s trace of period {bad[0]} changed from labels {image[bad[0]][0]} to {trace_image(obj)[bad[0]][0]}', case)
+            return
     if not spec:
         ctx.count('untraced_runs_checked')
         for t in range(n):
